@@ -94,8 +94,10 @@ type c04State struct {
 	simple  *unlocker.Simple   // non-nil: one unlocker object re-keyed for every signature of the run
 	getter  *unlocker.Getter   // non-nil: one library getter re-keyed per locking script (wallet style)
 	// withScripts: verifications pass WithScripts next to WithTx
-	withScripts         bool
-	usedSpecialOutpoint bool
+	withScripts bool
+	// scriptsOnlyViaOption: with withScripts, the previous output given to WithTx has no locking script of its own
+	scriptsOnlyViaOption bool
+	usedSpecialOutpoint  bool
 	// sharePtr: places that hold the same script hold the same *bscript.Script object (one per party), the way a
 	// wallet that keeps one script per address builds its transactions
 	sharePtr bool
@@ -267,7 +269,13 @@ func (s *c04State) verifierCopy() *bt.Tx {
 
 // verify executes input i against the presented spent output.
 func (s *c04State) verify(tx *bt.Tx, i int, value uint64, script []byte, flag byte) (bool, string) {
-	opts := []interpreter.ExecutionOptionFunc{interpreter.WithTx(tx, i, &bt.Output{Satoshis: value, LockingScript: scriptPtr(script)})}
+	prevOut := &bt.Output{Satoshis: value, LockingScript: scriptPtr(script)}
+	if s.withScripts && s.scriptsOnlyViaOption && i < len(tx.Inputs) && tx.Inputs[i].UnlockingScript != nil {
+		// the spelling the option validation provides for: the scripts come through WithScripts, the previous output
+		// handed to WithTx carries the value only
+		prevOut.LockingScript = nil
+	}
+	opts := []interpreter.ExecutionOptionFunc{interpreter.WithTx(tx, i, prevOut)}
 	// policy flags every library-made signature satisfies (canonical DER, low S, defined hash type)
 	policy := scriptflag.VerifyLowS | scriptflag.VerifyDERSignatures | scriptflag.VerifyStrictEncoding | scriptflag.VerifyNullFail
 	if s.optOrder == 2 {
@@ -459,6 +467,7 @@ func (w *c04World) Run(c *kernel.RunCtx) {
 		}
 	}
 	s.withScripts = c.Bool(1, 3)
+	s.scriptsOnlyViaOption = c.Bool(1, 2)
 	s.optOrder = c.Pick(3, 1, 1, 1)
 	s.sharePtr = c.Bool(1, 3)
 	s.shared = map[int]*bscript.Script{}
